@@ -12,6 +12,8 @@ make -C "$W/src" >/dev/null 2>&1
 clean=$(sh "$S/demo.sh" "$W" 2>&1 | tail -1); crc=$?
 ( cd "$W" && git apply "$S/patch.diff" ) || { echo "$S: patch does not apply"; /verif/tools/rmworktree.sh "$W"; exit 2; }
 touch "$W"/src/*.c; build=ok; make -j4 -C "$W/src" >/dev/null 2>&1 || build=FAILED
+# the bitint_test_09..12 programs link libechse through *_LDFLAGS, so make does not relink them when the library changes: force it
+rm -f "$W"/test/bitint_test_?? "$W"/test/evical_prnt "$W"/test/evical_prntdesc 2>/dev/null
 tests=$(make -C "$W/test" check 2>&1 | grep -E "^# (PASS|FAIL)" | tr -d ' \n#')
 mut=$(sh "$S/demo.sh" "$W" 2>&1 | tail -1); mrc=$?
 chk=$(cd /verif && ECHSE_REPO="$W" ECHSE_NO_EVIDENCE=1 ./check "$PID" --tier quick 2>&1)
